@@ -3,7 +3,7 @@ import core
 from props import collector_common as cc
 
 ID = 'C07'
-EXTRACT = ['collector', 'frames']
+EXTRACT = ['collector', 'frames', 'collector_time']
 LEAN_TARGETS = ['DeepModel.Props.C07']
 AUDIT = 'DeepModel/Audit/C07.lean'
 DRIVER = 'DeepModel/Driver/C05.lean'
